@@ -14,7 +14,7 @@ Local Open Scope Z_scope.
 
 (* =====================  Condition  ===================== *)
 Inductive cop :=
-| CWait (timed : bool)     (* wait(timeout) / wait() *)
+| CWait (t : tmo)          (* wait(timeout) / wait(); see C33.Model.tmo *)
 | CNotify (n : Z)          (* notify(n) *)
 | CNotifyAll
 | CFire (w : nat)          (* timeout handle of wait w runs *)
@@ -67,7 +67,7 @@ Definition cev_of (e : event) : cevent :=
 
 Definition cstep (s : state) (o : cop) : state * cevent :=
   match o with
-  | CWait t => c_wait t s
+  | CWait t => c_wait (timed_of t) s
   | CNotify n => c_notify n s
   | CNotifyAll => c_notify (Z.of_nat (length (s_waiters s))) s      (* self.notify(len(self._waiters)) *)
   | CFire w => let '(s', e) := do_fire w s in (s', cev_of e)         (* same closure shape as Semaphore's on_timeout *)
@@ -90,7 +90,7 @@ Definition wake_count (n : Z) (live : nat) : nat :=
 
 Definition cspec_step (a : cspec) (o : cop) : cspec * cevent :=
   match o with
-  | CWait t => (mkCSpec (q_queue a ++ [(q_next a, t)]) (S (q_next a)), CvWaiting (q_next a))
+  | CWait t => (mkCSpec (q_queue a ++ [(q_next a, timed_of t)]) (S (q_next a)), CvWaiting (q_next a))
   | CNotify n =>
       let c := wake_count n (length (q_queue a)) in
       (mkCSpec (skipn c (q_queue a)) (q_next a), CvWoke (map fst (firstn c (q_queue a))))
@@ -157,7 +157,7 @@ Record estate := mkE {
 Definition event_init : estate := mkE false [] [].
 
 Inductive eop :=
-| EWait (timed : bool)
+| EWait (t : tmo)
 | ESet
 | EClear
 | EFire (w : nat)      (* with_timeout's timeout_callback of wait w runs *)
@@ -275,7 +275,7 @@ Definition e_drain (s : estate) : estate :=
 
 Definition estep (s : estate) (o : eop) : estate * eevent :=
   match o with
-  | EWait t => e_wait t s
+  | EWait t => e_wait (timed_of t) s
   | ESet => (e_set s, VNone)
   | EClear => (mkE false (e_waits s) (e_ready s), VNone)
   | EFire w => e_fire w s
